@@ -631,13 +631,18 @@ func builtinArrayReduce(call FunctionCall) Value {
 		if length > 0 || initial {
 			var accumulator Value
 			if !initial {
+				found := false
 				for ; index < length; index++ {
 					if key := arrayIndexToString(index); thisObject.hasProperty(key) {
 						accumulator = thisObject.get(key)
 						index++
+						found = true
 
 						break
 					}
+				}
+				if !found {
+					panic(call.runtime.panicTypeError("Array.reduce of an array without elements and no initial value"))
 				}
 			} else {
 				accumulator = start
